@@ -125,12 +125,36 @@ func runHistory(t *testing.T, h history, mode string) (fs []finding, rs runStats
 				if w := c.warming(); len(w) > 0 {
 					fs = append(fs, finding{fmt.Sprintf("warming:%s", strings.Join(w, ",")), fmt.Sprintf("after %s client %s still waits for %v", label, c.spec.Name, w)})
 				}
+				if mode == "c06" {
+					continue
+				}
 				// O1: what a new connection of the same node gets from the same live server
 				fresh := srv.fetch(c.spec, false)
 				if d := diffSnap(c.snapshot(), fresh.snapshot()); d != "" {
 					for _, cl := range diffClasses(c.snapshot(), fresh.snapshot()) {
 						fs = append(fs, finding{"held-vs-new-connection:" + cl,
 							fmt.Sprintf("after %s the connected %s holds something else than a new connection receives (first=held, second=new connection): %s", label, c.spec.Name, d)})
+					}
+				}
+			}
+			if mode == "c06" && i == len(h.Ops)-1 {
+				// (only at the last point of a history: emptying the cache is part of the oracle and would
+				// disturb the rest of the history; every prefix is a history of its own)
+				// the cache must be invisible at every quiescent point of every history: what a new
+				// connection is served now (possibly from the cache) equals a fresh generation at the same
+				// moment on the same control plane (cache emptied)
+				var served []snapshot
+				for _, c := range sotw {
+					served = append(served, srv.fetch(c.spec, false).snapshot())
+				}
+				srv.s.Discovery.Cache.ClearAll()
+				for ci, c := range sotw {
+					regen := srv.fetch(c.spec, false).snapshot()
+					if d := diffSnap(served[ci], regen); d != "" {
+						for _, cl := range diffClasses(served[ci], regen) {
+							fs = append(fs, finding{"history:served-vs-regenerated:" + cl,
+								fmt.Sprintf("after %s what %s is served with the cache (first) differs from a fresh generation at the same moment (second): %s", label, c.spec.Name, d)})
+						}
 					}
 				}
 			}
@@ -307,3 +331,4 @@ func explore(t *testing.T, property, part, mode string) {
 
 func TestC01(t *testing.T) { explore(t, "C01", "histories", "c01") }
 func TestC03(t *testing.T) { explore(t, "C03", "delta-twin", "c03") }
+func TestC06e(t *testing.T) { explore(t, "C06", "e-histories-cache-off", "c06") }
